@@ -96,7 +96,7 @@ Print Assumptions dup_mov_none_nodup.
 Theorem accepted_names_distinct :
   forall (autovars : list (text * autovar)) (switches : list (text * text)) (ee : bool) (pf : toks -> Parser.res (token * text * text * toks))
     (ts : toks) (p : program),
-  parse_program autovars switches ee pf ts = Parser.Ok p -> NoDup (map xname (texts p)) /\ NoDup (mov_names (tops p)).
+  ee = true -> parse_program autovars switches ee pf ts = Parser.Ok p -> NoDup (map xname (texts p)) /\ NoDup (mov_names (tops p)).
 Proof. exact NameClash.accepted_names_distinct. Qed.
 Print Assumptions accepted_names_distinct.
 
@@ -105,7 +105,7 @@ Theorem parse_program_name_check :
     (ts : list token) (st : pstate),
   parse_tops autovars switches ee pf (5 * length ts + 4) pst0 ts = Parser.Ok st ->
   (exists (l1 : list textdef) (x : textdef) (l2 : list textdef),
-     all_texts st = l1 ++ x :: l2 /\
+     checked_texts ee st = l1 ++ x :: l2 /\
      NoDup (map xname l1) /\
      In (xname x) (map xname l1) /\
      parse_program autovars switches ee pf ts =
@@ -131,9 +131,9 @@ Theorem parse_program_name_check :
                                                              (String.String (Ascii.Ascii true false true false false true true false)
                                                                 (String.String (Ascii.Ascii false false true true false true true false)
                                                                    String.EmptyString))))))))))))))))))))) \/
-  NoDup (map xname (all_texts st)) /\
+  NoDup (map xname (checked_texts ee st)) /\
   (exists (e1 : list (text * token)) (n : text) (tk : token) (e2 : list (text * token)) (tk0 : token),
-     mov_entries (all_tops st) = e1 ++ (n, tk) :: e2 /\
+     mov_entries (checked_tops ee st) = e1 ++ (n, tk) :: e2 /\
      NoDup (map Datatypes.fst e1) /\
      In (n, tk0) e1 /\
      parse_program autovars switches ee pf ts =
@@ -165,8 +165,9 @@ Theorem parse_program_name_check :
                                                                             (String.String
                                                                                (Ascii.Ascii false false true true false true true false)
                                                                                String.EmptyString))))))))))))))))))))))))) \/
-  NoDup (map xname (all_texts st)) /\
-  NoDup (mov_names (all_tops st)) /\ parse_program autovars switches ee pf ts = Parser.Ok {| tops := all_tops st; texts := all_texts st |}.
+  NoDup (map xname (checked_texts ee st)) /\
+  NoDup (mov_names (checked_tops ee st)) /\
+  parse_program autovars switches ee pf ts = Parser.Ok {| tops := all_tops st; texts := all_texts st |}.
 Proof. exact NameClash.parse_program_name_check. Qed.
 Print Assumptions parse_program_name_check.
 
@@ -174,9 +175,9 @@ Theorem duplicate_text_label_iff :
   forall (autovars : list (text * autovar)) (switches : list (text * text)) (ee : bool) (pf : toks -> Parser.res (token * text * text * toks))
     (ts : list token) (st : pstate),
   parse_tops autovars switches ee pf (5 * length ts + 4) pst0 ts = Parser.Ok st ->
-  ~ NoDup (map xname (all_texts st)) <->
+  ~ NoDup (map xname (checked_texts ee st)) <->
   (exists x : textdef,
-     In x (all_texts st) /\
+     In x (checked_texts ee st) /\
      parse_program autovars switches ee pf ts =
      err_tok (xtok x)
        (String.String (Ascii.Ascii false false true false false true true false)
@@ -207,9 +208,9 @@ Theorem duplicate_movement_label_iff :
   forall (autovars : list (text * autovar)) (switches : list (text * text)) (ee : bool) (pf : toks -> Parser.res (token * text * text * toks))
     (ts : list token) (st : pstate),
   parse_tops autovars switches ee pf (5 * length ts + 4) pst0 ts = Parser.Ok st ->
-  NoDup (map xname (all_texts st)) /\ ~ NoDup (mov_names (all_tops st)) <->
+  NoDup (map xname (checked_texts ee st)) /\ ~ NoDup (mov_names (checked_tops ee st)) <->
   (exists (n : text) (tk0 : token),
-     In (n, tk0) (mov_entries (all_tops st)) /\
+     In (n, tk0) (mov_entries (checked_tops ee st)) /\
      parse_program autovars switches ee pf ts =
      err_tok tk0
        (String.String (Ascii.Ascii false false true false false true true false)
@@ -246,7 +247,7 @@ Theorem accepted_iff :
   forall (autovars : list (text * autovar)) (switches : list (text * text)) (ee : bool) (pf : toks -> Parser.res (token * text * text * toks))
     (ts : list token) (st : pstate),
   parse_tops autovars switches ee pf (5 * length ts + 4) pst0 ts = Parser.Ok st ->
-  NoDup (map xname (all_texts st)) /\ NoDup (mov_names (all_tops st)) <->
+  NoDup (map xname (checked_texts ee st)) /\ NoDup (mov_names (checked_tops ee st)) <->
   parse_program autovars switches ee pf ts = Parser.Ok {| tops := all_tops st; texts := all_texts st |}.
 Proof. exact NameClash.accepted_iff. Qed.
 Print Assumptions accepted_iff.
@@ -379,6 +380,7 @@ Print Assumptions emit_program_rejects_iff.
 Theorem compiled_without_name_clash :
   forall (hl hd hs : N -> bool) (autovars : list (text * autovar)) (switches : list (text * text)) (ee : bool) (fc : fontcfg) 
     (cli_font : text) (cli_maxlen : Z) (optimize : bool) (mpath : option text) (src out : text),
+  ee = true ->
   Compile.compile hl hd hs autovars switches ee fc cli_font cli_maxlen optimize mpath src = Compile.OutText out ->
   exists p : program,
     parse_program autovars switches ee (parse_format fc cli_font cli_maxlen ee) (lex hl hd hs src) = Parser.Ok p /\
@@ -405,7 +407,7 @@ Theorem compile_duplicate_text_located :
     (cli_font : text) (cli_maxlen : Z) (optimize : bool) (mpath : option text) (src : text) (st : pstate) (x : textdef),
   parse_tops autovars switches ee (parse_format fc cli_font cli_maxlen ee) (5 * length (lex hl hd hs src) + 4) pst0 (lex hl hd hs src) =
   Parser.Ok st ->
-  dup_text [] (all_texts st) = Some x ->
+  dup_text [] (checked_texts ee st) = Some x ->
   Compile.compile hl hd hs autovars switches ee fc cli_font cli_maxlen optimize mpath src =
   Compile.OutErr
     {|
@@ -447,8 +449,8 @@ Theorem compile_duplicate_movement_located :
     (cli_font : text) (cli_maxlen : Z) (optimize : bool) (mpath : option text) (src : text) (st : pstate) (tk : token),
   parse_tops autovars switches ee (parse_format fc cli_font cli_maxlen ee) (5 * length (lex hl hd hs src) + 4) pst0 (lex hl hd hs src) =
   Parser.Ok st ->
-  dup_text [] (all_texts st) = None ->
-  dup_mov [] (all_tops st) = Some tk ->
+  dup_text [] (checked_texts ee st) = None ->
+  dup_mov [] (checked_tops ee st) = Some tk ->
   Compile.compile hl hd hs autovars switches ee fc cli_font cli_maxlen optimize mpath src =
   Compile.OutErr
     {|
